@@ -8,8 +8,10 @@ fn mock_delay_new(_d: Duration) -> Delay {
     unsafe { std::mem::zeroed() }
 }
 
-static mut NOW_SECS: u64 = 0;
-static mut NOW_NANOS: u32 = 0;
+// distinctive initial values (see shims/clock.rs: Kani deduplicated a zero std constant onto a
+// zero-initialised `static mut`); every harness sets the clock before reading it
+static mut NOW_SECS: u64 = 0x5EED_0C10_5EED_0C10;
+static mut NOW_NANOS: u32 = 0x0C10_5EED;
 
 fn zero_instant() -> Instant {
     unsafe { std::mem::zeroed() }
